@@ -8,6 +8,7 @@ package main
 // kind, VM outcome kind) pair.
 
 import (
+	"sort"
 	"strings"
 
 	"github.com/glyphlang/glyph/pkg/ast"
@@ -138,6 +139,11 @@ func c02Key(min c02Case, oi, ov c02Outcome, vmSet, interpSet map[string]bool) st
 	// compile time, while at run time the block's variables live in its own VM
 	if n := c02AsyncLeak(body); n != "" && cv == "fail" && ci != "fail" {
 		return "async-block-declaration-read-after-the-block/interp=" + ci + ",vm=fail"
+	}
+	// only the value differs and the route does nothing but build arrays from
+	// arrays: one engine's operation writes into storage another value still uses
+	if ops := c02AliasOpsOf(body); ops != "" && ci == "ok" && cv == "ok" {
+		return "array-aliasing/ops=" + ops + "/" + pair
 	}
 	// a statement kind the compiler drops
 	if c02HasValidation(body) && cv == "ok" && ci != "ok" {
@@ -474,4 +480,70 @@ func c02AsyncLeak(b []ast.Statement) string {
 		})
 	}
 	return ""
+}
+
+// c02AliasOpsOf: if the route body consists of declarations, at least two
+// array-building reassignments (D = S + [..], D = [..] + S, D = S + S2, D = S,
+// for v in S { D = D + [v] }) and a final return, it returns the sorted set of
+// the forms used, "" otherwise.
+func c02AliasOpsOf(b []ast.Statement) string {
+	isVar := func(e ast.Expr) bool { _, ok := e.(ast.VariableExpr); return ok }
+	isArr := func(e ast.Expr) bool { _, ok := e.(ast.ArrayExpr); return ok }
+	form := func(st ast.Statement) string {
+		r, ok := st.(ast.ReassignStatement)
+		if !ok {
+			return ""
+		}
+		if isVar(r.Value) {
+			return "alias"
+		}
+		if be, ok := r.Value.(ast.BinaryOpExpr); ok && be.Op == ast.Add {
+			switch {
+			case isVar(be.Left) && isArr(be.Right):
+				return "concat-onto"
+			case isArr(be.Left) && isVar(be.Right):
+				return "prepend-to"
+			case isVar(be.Left) && isVar(be.Right):
+				return "concat-two"
+			case isArr(be.Left) && isArr(be.Right):
+				return "concat-onto" // (onto an array that is not held by a variable)
+			}
+		}
+		return ""
+	}
+	forms := map[string]bool{}
+	n := 0
+	for i, st := range b {
+		switch x := st.(type) {
+		case ast.AssignStatement:
+			continue
+		case ast.ReturnStatement:
+			if i != len(b)-1 {
+				return ""
+			}
+			continue
+		case ast.ForStatement:
+			if len(x.Body) == 1 && form(x.Body[0]) == "concat-onto" && isVar(x.Iterable) {
+				forms["rebuild-in-loop"] = true
+				n++
+				continue
+			}
+			return ""
+		}
+		f := form(st)
+		if f == "" {
+			return ""
+		}
+		forms[f] = true
+		n++
+	}
+	if n < 2 {
+		return ""
+	}
+	var fs []string
+	for f := range forms {
+		fs = append(fs, f)
+	}
+	sort.Strings(fs)
+	return strings.Join(fs, "+")
 }
